@@ -24,7 +24,7 @@ from ..translate import blocks, ir
 
 THEOREMS = ["twosum", "fast_twosum", "twosum_fix_overflow", "fast2sum_fix_overflow", "ties_add_2sum",
             "twosum_generated", "fast2sum_generated", "twosum_fix_generated", "fast2sum_fix_generated", "generated_wf",
-            "twosum_bit_exact", "twosum_bit_exact_any_format", "soft_ops_correctly_rounded"]
+            "twosum_bit_exact", "twosum_bit_exact_any_format", "fast2sum_bit_exact_any_format", "soft_ops_correctly_rounded"]
 SEARCHED = ["Veltkamp splitter x = xh + xl and half-significand bit bounds (all variants, scale on/off)",
             "Dekker product h + l = x*y (all variants)", "fix_overflow fallbacks", "float64/float32/float16 machine arithmetic = round-to-nearest (Soft vs NumPy)"]
 TRUSTED = [
@@ -33,12 +33,14 @@ TRUSTED = [
     "FP theory over Q: formats with unbounded exponent range above (overflow excluded by hypothesis, as the property words it); rounding = any round-to-nearest",
     "FP/Soft.lean == machine binary16/32/64 arithmetic (validated against NumPy on directed operands each run)",
 ]
-LEVEL_TEXT = ("Proof for 2Sum and Fast2Sum (with and without fix_overflow): for every precision p>=2, every emin, any round-to-nearest tie rule and all "
-              "representable x, y the regenerated program returns (RN(x+y), x+y-RN(x+y)) exactly (Fast2Sum under |x|>=|y|) — theorems about the DAGs traced "
-              "from the current source, tied by kernel-checked equality to the specification programs. Splitter and Dekker clauses, the algorithms.py / utils.py / "
-              "apmath copies and all option combinations are decided by exact-rational search on the real functions (partial: not theorems yet).")
-LEVEL_NOTE = ("Theorems hold in the overflow-free rational model (hypothesis of the property). Translator and softfloat are validated by a 3-way bit-level "
-              "cross-check each run. Splitter/Dekker: search only.")
+LEVEL_TEXT = ("Proof for 2Sum and Fast2Sum (with and without fix_overflow): (1) abstract: for every precision p>=2, every emin, any round-to-nearest tie rule and all "
+              "representable x, y the regenerated programs (fpa.add_2sum every option combination, the algorithms.py and utils.py copies, float16/32/64; tied by kernel-checked "
+              "node-for-node equality to the specification programs) return (RN(x+y), x+y-RN(x+y)) exactly (Fast2Sum under |x|>=|y|); (2) bit-exact: the softfloat "
+              "add/sub/mul are proved correctly rounded (value = rne(exact), rne proved to be a round-to-nearest), so the same exactness holds for the BIT-PATTERN evaluation "
+              "of the traced program for all finite operands whenever no intermediate operation overflows. Splitter and Dekker clauses, their copies and all option "
+              "combinations are decided by exact-rational search on the real functions (partial: not theorems).")
+LEVEL_NOTE = ("Overflow excluded by hypothesis as the property words it. Softfloat == machine arithmetic is validated by a 3-way bit-level cross-check each run "
+              "(and its add/sub/mul are proved correctly rounded). Splitter/Dekker: search only.")
 TECHNIQUE = "Lean 4 proof (Flocq-style FP theory over Q) on translator-regenerated DAGs + bit-level 3-way correspondence + exact-rational search"
 
 FMTS = ["float16", "float32", "float64"]
